@@ -66,6 +66,54 @@ def unit(rng):
     return g4gen.render(toks, rng)
 
 
+MAPPINGS = ["RequestMapping", "GetMapping", "PostMapping", "PutMapping", "DeleteMapping", "PatchMapping", "ServiceMethod", "Override", "Test", "Ignore"]
+
+
+def anno_args(rng):
+    """an annotation argument list whose element values are sentences of the grammar's `elementValue` rule: scalars, constants,
+    nested annotations, array initialisers (empty, one element, trailing comma), conditional expressions, ..."""
+    g = grammar()
+
+    def ev():
+        toks = []
+        g._gen(("ref", "elementValue"), rng, rng.choice([2, 3, 5, 7]), toks, (0, 0, 1, 2))
+        return " ".join(toks)
+    r = rng.random()
+    if r < 0.15:
+        return ""
+    if r < 0.25:
+        return "()"
+    if r < 0.5:
+        return "(" + rng.choice([ev(), "{}", "{ }", '{"/a", "/b"}', '{"/a",}', '"/x"', "Api.PATH", '"/a" + "/b"']) + ")"
+    keys = rng.sample(["value", "method", "path", "produces", "name", "consumes"], rng.choice([1, 2, 3]))
+    vals = [rng.choice([ev(), "{}", "{RequestMethod.GET, RequestMethod.HEAD}", "RequestMethod.POST", '{"/a", "/b"}', '"/x"']) for _ in keys]
+    return "(" + ", ".join("%s = %s" % kv for kv in zip(keys, vals)) + ")"
+
+
+def spring_unit(rng):
+    """a controller-shaped unit: the listeners that look for particular annotation names (API scan, test smells, override) get
+    those names with every argument form"""
+    lines = ["package com.app.web;", "", "import org.springframework.web.bind.annotation.*;", ""]
+    for a in rng.sample(["@RestController", "@Controller", "@RequestMapping" + anno_args(rng), "@Service", "@RestController" + anno_args(rng)], rng.choice([0, 1, 2, 3])):
+        lines.append(a)
+    kind = rng.choice(["class", "class", "class", "interface"])
+    lines.append("public %s C%d%s {" % (kind, rng.randrange(9), rng.choice(["", " implements Api", " extends Base implements Api, Other"]) if kind == "class" else ""))
+    for j in range(rng.choice([0, 1, 2, 3, 4])):
+        for _ in range(rng.choice([0, 1, 1, 2])):
+            lines.append("    @" + rng.choice(MAPPINGS) + anno_args(rng))
+        params = []
+        for k in range(rng.choice([0, 0, 1, 2, 3])):
+            pa = rng.choice(["", "", "@RequestBody ", "@PathVariable" + anno_args(rng) + " ", "final ", "@Valid @RequestBody "])
+            params.append("%s%s p%d" % (pa, rng.choice(["UserDto", "String", "List<Item>", "int[]", "Map.Entry<String, ?>", "long"]), k))
+        body = " { }" if kind == "class" else ";"
+        if kind == "class" and rng.random() < 0.3:
+            body = " {\n        return %s;\n    }" % rng.choice(["null", "svc.find(p0)", "this"])
+        lines.append("    %s%s h%d(%s)%s" % (rng.choice(["public ", "", "protected "]) if kind == "class" else "", rng.choice(["void", "String", "ResponseEntity<List<T>>", "<T> T"]), j,
+                                          ", ".join(params), body))
+    lines.append("}")
+    return "\n".join(lines) + "\n"
+
+
 def fixture_files():
     fs = []
     for root in ["/repo/_fixtures", "/repo/pkg"]:
@@ -92,7 +140,10 @@ def gen(rng, tier):
     for s in range(nsh):
         sh = []
         for i in range(per):
-            if rng.random() < 0.8 or not fx:
+            r_src = rng.random()
+            if r_src < 0.2:
+                sh.append({"op": "passes", "files": {"src/Ctl%d.java" % k: spring_unit(rng) for k in range(rng.choice([1, 2]))}, "src": "spring"})
+            elif r_src < 0.8 or not fx:
                 files = {}
                 for k in range(rng.choice([1, 1, 2])):
                     files["src/U%d.java" % k] = unit(rng)
